@@ -10,7 +10,8 @@ import PdfModel.Model.OffsetsConcrete
   (`back` / `boundaryRev` look backwards and are not shift-invariant; the parser does not use them.)
 -/
 
-namespace PdfLex
+namespace PdfShift
+open PdfLex
 
 @[simp] theorem omap_ok {α β : Type} (f : α → β) (a : α) : omap f (.ok a) = .ok (f a) := rfl
 @[simp] theorem omap_err {α β : Type} (f : α → β) : omap f (.err : Out α) = .err := rfl
@@ -470,4 +471,4 @@ theorem remainingStart_shift (p b : Buf) (pos : Nat) :
   · have : ¬ p.size + pos > p.size + b.size := by omega
     simp [h, this]
 
-end PdfLex
+end PdfShift
